@@ -227,6 +227,19 @@ def real_cases(ctx, rng, nseeds):
             else:
                 cases.append({"id": "bl%d" % si, "kind": "eq", "a": [0], "b": [1], "what": "blind_xpub-raises"})
             ctx.nontriv(("blind", start_path))
+            # a starting path whose depth is not the depth the xpub itself states (too deep / too shallow): refusing is fine; whatever is
+            # returned must still be the key at the returned full path.  (A wrong path of the right depth cannot be told from the
+            # xpub and is outside the property: the starting path is the caller's statement of where the xpub sits.)
+            for wj, wrong in enumerate(["m/48h/0h/0h/2h/0", "m/45'", "m", "m/44h/0h/0h/7h", "m/45'/1"]):
+                if wrong.count("/") == start_path.count("/"):
+                    continue
+                blw = outcome(blind_xpub, start[1].xpub(), wrong, sp)
+                if blw[0] != "ok":
+                    continue
+                fullw = outcome(root.traverse, blw[1]["blinded_full_path"])
+                cases.append({"id": "blw%d.%d" % (si, wj), "kind": "eq", "a": T(blw[1]["blinded_child_xpub"]), "b": T(fullw[1].xpub()) if fullw[0] == "ok" else [0],
+                              "what": "blinded-xpub-is-not-key-at-combined-path:inconsistent-starting-path"})
+                ctx.nontriv(("blind-wrong-start", wrong))
     return cases
 
 
